@@ -201,6 +201,40 @@ End ListLemmas.
 
 Arguments bools : clear implicits.
 
+(* ------------------------------------------ facts read from the source *)
+(* Gen/ValidFacts.v is regenerated from holdout_validation.cc / dss.cc on every run.  The
+   lemmas of this block are the ONLY place where the development looks at what was generated:
+   they are proved by computation and stop checking when the source says something else
+   (no clamp on the training share, a conditional clear(), another guard in shake, ...). *)
+Lemma gen_early_fact : forall run, gen_holdout_early_return run = (0 <? run).
+Proof. reflexivity. Qed.
+
+Lemma gen_skip_fact : forall a p,
+  gen_holdout_skip a p = Z.max (((a * ((100 - p) mod two32)) mod two64) / 100) 1.
+Proof. reflexivity. Qed.
+
+Lemma gen_fy_fact : forall a s, gen_fy_first a = a - 1 /\ gen_fy_count a s = a - s.
+Proof. intros. unfold gen_fy_first, gen_fy_count. split; lia. Qed.
+
+Lemma gen_weight_fact : forall d a, gen_weight d a = (d + a * a * a) mod two64.
+Proof.
+  intros. unfold gen_weight. rewrite Zmult_mod_idemp_l, Zplus_mod_idemp_r. reflexivity.
+Qed.
+
+Lemma gen_shake_skips_fact : forall g gp, gen_shake_skips g gp = (g =? 0) || negb (g mod gp =? 0).
+Proof. reflexivity. Qed.
+
+Lemma gen_clear_fact : gen_clear_steps = [GClearT; GClearV].
+Proof. reflexivity. Qed.
+Lemma gen_init_fact : gen_init_steps = [GResetT; GResetV; GShakeImpl; GClearBoth].
+Proof. reflexivity. Qed.
+Lemma gen_shake_fact : gen_shake_steps = [GIncAgeT; GIncAgeV; GShakeImpl; GClearBoth].
+Proof. reflexivity. Qed.
+Lemma gen_close_fact : gen_close_steps = [GMoveToValidation; GClearBoth].
+Proof. reflexivity. Qed.
+Lemma gen_shape_fact : shape_eqb gen_shake_impl_shape modelled_shape = true.
+Proof. reflexivity. Qed.
+
 (* ------------------------------------------------------------------ model *)
 Section ModelLemmas.
 Variable P : Type.
@@ -218,6 +252,102 @@ Lemma idents_perm : forall (T V T' V' : list example) ct cv ct' cv',
   Permutation (T' ++ V') (T ++ V) ->
   Permutation (idents P (mkSt T' V' ct' cv')) (idents P (mkSt T V ct cv)).
 Proof. intros. unfold idents. cbn [training validation]. apply Permutation_map. assumption. Qed.
+
+
+(* the interpreter of ValidDefs.v on the facts above: the functions as the source writes them *)
+Lemma holdout_skip_unfold : forall a p,
+  holdout_skip a p = Z.max (((a * ((100 - p) mod two32)) mod two64) / 100) 1.
+Proof. intros. unfold holdout_skip. apply gen_skip_fact. Qed.
+
+Lemma holdout_init_unfold : forall c run st ds,
+  holdout_init P c run st ds =
+  if 0 <? run then Some (st, ds)
+  else
+    if zlen P (training st) =? 0 then None
+    else
+      if zlen P (training st) <? holdout_skip (zlen P (training st)) (perc c) then None
+      else
+        match fy_loop P (Z.to_nat (zlen P (training st) - holdout_skip (zlen P (training st)) (perc c)))
+                (zlen P (training st) - 1) (training st) ds with
+        | None => None
+        | Some (l, ds') =>
+            Some (mkSt (firstn (Z.to_nat (holdout_skip (zlen P (training st)) (perc c))) l)
+                       (validation st ++ skipn (Z.to_nat (holdout_skip (zlen P (training st)) (perc c))) l)
+                       (clr_t st) (clr_v st), ds')
+        end.
+Proof.
+  intros c run st ds. unfold holdout_init. rewrite gen_early_fact.
+  destruct (0 <? run); [reflexivity|]. cbv zeta.
+  set (a := zlen P (training st)). set (sk := holdout_skip a (perc c)).
+  destruct (gen_fy_fact a sk) as [F1 F2]. rewrite F1, F2.
+  assert (Ha : 0 <= a) by apply zlen_nonneg.
+  assert (Hsk : 1 <= sk) by (unfold sk; rewrite holdout_skip_unfold; lia).
+  replace ((0 <? a - sk) && ((a - 1 <? 0) || (a <=? a - 1))) with false by lia.
+  replace (gen_fy_wraps && (sk =? 0)) with false by (destruct gen_fy_wraps; lia).
+  destruct (a =? 0) eqn:E0.
+  - replace ((sk <? 0) || (a <? sk)) with true by lia. reflexivity.
+  - replace ((sk <? 0) || (a <? sk)) with (a <? sk) by lia. reflexivity.
+Qed.
+
+Lemma shake_impl_unfold : forall c st ds,
+  shake_impl P c st ds =
+  match partition_bidir (validation st ++ training st) ds with
+  | None => None
+  | Some (arr, p, ds') =>
+      let s := zlen P (validation st ++ training st) in
+      let pivot := if (p =? 0)%nat || (Z.of_nat p =? s) then tsz c s else Z.of_nat p in
+      if (pivot <? 0) || (s <? pivot) then None
+      else Some (mkSt (reset_age_difficulty P (skipn (Z.to_nat pivot) arr)) (firstn (Z.to_nat pivot) arr)
+                      (clr_t st) (clr_v st), ds')
+  end.
+Proof.
+  intros. unfold shake_impl. rewrite gen_shape_fact. cbn [negb move_to_validation training validation clr_t clr_v app].
+  reflexivity.
+Qed.
+
+Lemma clear_both_unfold : forall st, run_clear_steps P gen_clear_steps st = Some (clear_evaluators P st).
+Proof. intros. rewrite gen_clear_fact. reflexivity. Qed.
+
+Lemma dss_init_unfold : forall c run st ds,
+  dss_init P c run st ds =
+  match shake_impl P c (mkSt (reset_age_difficulty P (training st)) (reset_age_difficulty P (validation st))
+                             (clr_t st) (clr_v st)) ds with
+  | None => None
+  | Some (st1, ds') => Some (clear_evaluators P st1, ds')
+  end.
+Proof.
+  intros. unfold dss_init. rewrite gen_init_fact. cbn [run_gsteps run_gstep training validation clr_t clr_v].
+  destruct (shake_impl P c _ ds) as [[st1 ds1]|]; [|reflexivity].
+  rewrite clear_both_unfold. reflexivity.
+Qed.
+
+Lemma shake_due_unfold : forall c gen, shake_due c gen = negb (gen =? 0) && (gen mod gap c =? 0).
+Proof.
+  intros. unfold shake_due. rewrite gen_shake_skips_fact, negb_orb, negb_involutive. reflexivity.
+Qed.
+
+Lemma dss_shake_unfold : forall c gen st ds,
+  dss_shake P c gen st ds =
+  if gap c =? 0 then None
+  else if negb (shake_due c gen) then Some (st, ds, false)
+  else
+    match shake_impl P c (mkSt (map (inc_age1 P) (training st)) (map (inc_age1 P) (validation st))
+                               (clr_t st) (clr_v st)) ds with
+    | None => None
+    | Some (st1, ds') => Some (clear_evaluators P st1, ds', true)
+    end.
+Proof.
+  intros. unfold dss_shake. destruct (gap c =? 0); [reflexivity|]. destruct (negb (shake_due c gen)); [reflexivity|].
+  rewrite gen_shake_fact. cbn [run_gsteps run_gstep training validation clr_t clr_v].
+  destruct (shake_impl P c _ ds) as [[st1 ds1]|]; [|reflexivity].
+  rewrite clear_both_unfold. reflexivity.
+Qed.
+
+Lemma dss_close_unfold : forall c run st ds,
+  dss_close P c run st ds = Some (clear_evaluators P (move_to_validation P st), ds).
+Proof.
+  intros. unfold dss_close. rewrite gen_close_fact. cbn [run_gsteps run_gstep]. rewrite clear_both_unfold. reflexivity.
+Qed.
 
 (* ----------------------------------------------------------------- hold-out *)
 Lemma fy_loop_perm : forall cnt i l ds l' ds',
@@ -259,7 +389,7 @@ Qed.
 Lemma holdout_skip_spec : forall n p, 0 <= p < 100 -> 0 <= n -> n * 100 < two64 ->
   holdout_skip n p = Z.max (n * (100 - p) / 100) 1.
 Proof.
-  intros n p Hp Hn Hb. unfold holdout_skip.
+  intros n p Hp Hn Hb. rewrite holdout_skip_unfold.
   rewrite (Z.mod_small (100 - p)) by (unfold two32; lia).
   rewrite Z.mod_small by nia. reflexivity.
 Qed.
@@ -273,7 +403,7 @@ Proof.
 Qed.
 
 Lemma holdout_init_later_run : forall c run st ds, 0 < run -> holdout_init P c run st ds = Some (st, ds).
-Proof. intros. unfold holdout_init. replace (0 <? run) with true by lia. reflexivity. Qed.
+Proof. intros. rewrite holdout_init_unfold. replace (0 <? run) with true by lia. reflexivity. Qed.
 
 Lemma holdout_init_spec : forall c run st ds st' ds',
   holdout_init P c run st ds = Some (st', ds') ->
@@ -284,7 +414,7 @@ Lemma holdout_init_spec : forall c run st ds st' ds',
       let skip := holdout_skip n (perc c) in
       1 <= skip <= n /\ zlen P (training st') = skip /\ zlen P (validation st') = zlen P (validation st) + (n - skip)).
 Proof.
-  intros c run st ds st' ds' H. unfold holdout_init in H.
+  intros c run st ds st' ds' H. rewrite holdout_init_unfold in H.
   destruct (0 <? run) eqn:Er.
   { inversion H; subst. repeat split; auto; intros; lia. }
   destruct (zlen P (training st) =? 0) eqn:E0; [discriminate|].
@@ -293,7 +423,7 @@ Proof.
   inversion H; subst; clear H. cbn [training validation clr_t clr_v].
   apply fy_loop_perm in Ef.
   assert (Hlen : length l = length (training st)) by (apply Permutation_length; exact Ef).
-  assert (Hs1 : 1 <= holdout_skip (zlen P (training st)) (perc c)) by (unfold holdout_skip; lia).
+  assert (Hs1 : 1 <= holdout_skip (zlen P (training st)) (perc c)) by (rewrite holdout_skip_unfold; lia).
   split; [|split; [reflexivity|split; [reflexivity|]]].
   - transitivity (l ++ validation st); [|apply Permutation_app_tail; exact Ef].
     rewrite <- (firstn_skipn (Z.to_nat (holdout_skip (zlen P (training st)) (perc c))) l) at 3.
@@ -309,9 +439,9 @@ Lemma holdout_init_progress : forall c st ds,
   1 <= n -> skip <= n -> fy_valid (Z.to_nat (n - skip)) (n - 1) ds ->
   exists st' ds', holdout_init P c 0 st ds = Some (st', ds').
 Proof.
-  intros c st ds n skip Hn Hs Hv. unfold holdout_init. fold n. fold skip.
+  intros c st ds n skip Hn Hs Hv. rewrite holdout_init_unfold. fold n. fold skip.
   replace (0 <? 0) with false by lia. replace (n =? 0) with false by lia. replace (n <? skip) with false by lia.
-  assert (Hs1 : 1 <= skip) by (unfold skip, holdout_skip; lia).
+  assert (Hs1 : 1 <= skip) by (unfold skip; rewrite holdout_skip_unfold; lia).
   destruct (fy_loop_progress (Z.to_nat (n - skip)) (n - 1) (training st) ds) as (l & ds1 & Hf); [lia|fold n; lia|exact Hv|].
   rewrite Hf. eexists _, _. reflexivity.
 Qed.
@@ -349,7 +479,7 @@ Lemma shake_impl_spec : forall c st ds st' ds',
     /\ clr_t st' = clr_t st /\ clr_v st' = clr_v st
     /\ (target_ok c (population P st) -> 2 <= population P st -> sel <> [] /\ validation st' <> []).
 Proof.
-  intros c st ds st' ds' H. unfold shake_impl in H. cbn [move_to_validation training validation clr_t clr_v] in H.
+  intros c st ds st' ds' H. rewrite shake_impl_unfold in H. cbv zeta in H.
   destruct (partition_bidir (validation st ++ training st) ds) as [[[arr p] ds1]|] eqn:Ep; [|discriminate].
   apply partition_bidir_spec in Ep. destruct Ep as [Hperm Hp].
   set (s := zlen P (validation st ++ training st)) in *.
@@ -375,7 +505,7 @@ Lemma shake_impl_progress : forall c st bs rest,
   target_ok c (population P st) -> 2 <= population P st -> Z.of_nat (length bs) = population P st ->
   exists st', shake_impl P c st (bools bs ++ rest) = Some (st', rest).
 Proof.
-  intros c st bs rest Ht Hpop Hbs. unfold shake_impl. cbn [move_to_validation training validation clr_t clr_v].
+  intros c st bs rest Ht Hpop Hbs. rewrite shake_impl_unfold. cbv zeta.
   assert (Hl : length bs = length (validation st ++ training st)).
   { unfold population, zlen in Hbs. rewrite app_length. lia. }
   destruct (partition_bidir_progress _ (validation st ++ training st) bs rest Hl) as (arr & p & Hpart).
@@ -392,15 +522,15 @@ Proof.
   eexists. reflexivity.
 Qed.
 
-Lemma dss_init_spec : forall c st ds st' ds',
-  dss_init P c st ds = Some (st', ds') ->
+Lemma dss_init_spec : forall c run st ds st' ds',
+  dss_init P c run st ds = Some (st', ds') ->
   exists sel,
     training st' = reset_age_difficulty P sel
     /\ Permutation (validation st' ++ sel) (reset_age_difficulty P (validation st ++ training st))
     /\ clr_t st' = clr_t st + 1 /\ clr_v st' = clr_v st + 1
     /\ (target_ok c (population P st) -> 2 <= population P st -> sel <> [] /\ validation st' <> []).
 Proof.
-  intros c st ds st' ds' H. unfold dss_init in H.
+  intros c run st ds st' ds' H. rewrite dss_init_unfold in H.
   destruct (shake_impl P c _ ds) as [[st1 ds1]|] eqn:Es; [|discriminate].
   inversion H; subst st' ds'; clear H.
   apply shake_impl_spec in Es. destruct Es as (sel & H1 & H2 & H3 & H4 & H5).
@@ -425,7 +555,7 @@ Lemma dss_shake_spec : forall c gen st ds st' ds' r,
         /\ clr_t st' = clr_t st + 1 /\ clr_v st' = clr_v st + 1
         /\ (target_ok c (population P st) -> 2 <= population P st -> sel <> [] /\ validation st' <> [])).
 Proof.
-  intros c gen st ds st' ds' r H. unfold dss_shake in H.
+  intros c gen st ds st' ds' r H. rewrite dss_shake_unfold in H.
   destruct (gap c =? 0) eqn:Eg; [discriminate|]. split; [lia|].
   destruct (shake_due c gen) eqn:Ed; cbn [negb] in H.
   - destruct (shake_impl P c _ ds) as [[st1 ds1]|] eqn:Es; [|discriminate].
@@ -446,7 +576,7 @@ Lemma dss_shake_progress : forall c gen st bs rest,
   target_ok c (population P st) -> 2 <= population P st -> Z.of_nat (length bs) = population P st ->
   exists st', dss_shake P c gen st (bools bs ++ rest) = Some (st', rest, true).
 Proof.
-  intros c gen st bs rest Hg Hd Ht Hpop Hbs. unfold dss_shake. replace (gap c =? 0) with false by lia.
+  intros c gen st bs rest Hg Hd Ht Hpop Hbs. rewrite dss_shake_unfold. replace (gap c =? 0) with false by lia.
   rewrite Hd. cbn [negb].
   assert (Hpe : population P (mkSt (map (inc_age1 P) (training st)) (map (inc_age1 P) (validation st)) (clr_t st) (clr_v st)) = population P st).
   { unfold population, zlen. cbn [training validation]. rewrite !map_length. reflexivity. }
@@ -458,11 +588,11 @@ Proof.
   - rewrite Hs. eexists. reflexivity.
 Qed.
 
-Lemma dss_init_progress : forall c st bs rest,
+Lemma dss_init_progress : forall c run st bs rest,
   target_ok c (population P st) -> 2 <= population P st -> Z.of_nat (length bs) = population P st ->
-  exists st', dss_init P c st (bools bs ++ rest) = Some (st', rest).
+  exists st', dss_init P c run st (bools bs ++ rest) = Some (st', rest).
 Proof.
-  intros c st bs rest Ht Hpop Hbs. unfold dss_init.
+  intros c run st bs rest Ht Hpop Hbs. rewrite dss_init_unfold.
   assert (Hpe : population P (mkSt (reset_age_difficulty P (training st)) (reset_age_difficulty P (validation st)) (clr_t st) (clr_v st)) = population P st).
   { unfold population, zlen, reset_age_difficulty. cbn [training validation]. rewrite !map_length. reflexivity. }
   destruct (shake_impl_progress c (mkSt (reset_age_difficulty P (training st)) (reset_age_difficulty P (validation st)) (clr_t st) (clr_v st))
@@ -485,7 +615,7 @@ Proof.
   intros c o st ds st' ds' r H. unfold idents. destruct o as [run|run|gen|run|f g]; cbn [step] in H.
   - destruct (holdout_init P c run st ds) as [[s d]|] eqn:E; [|discriminate]. inversion H; subst.
     apply holdout_init_spec in E. destruct E as (E & _). apply Permutation_map. exact E.
-  - destruct (dss_init P c st ds) as [[s d]|] eqn:E; [|discriminate]. inversion H; subst.
+  - destruct (dss_init P c run st ds) as [[s d]|] eqn:E; [|discriminate]. inversion H; subst.
     apply dss_init_spec in E. destruct E as (sel & H1 & H2 & _).
     rewrite H1, map_app, map_ident_reset, <- map_app.
     rewrite (Permutation_app_comm sel). rewrite (Permutation_map (ident P) H2).
@@ -497,7 +627,7 @@ Proof.
       rewrite (Permutation_app_comm sel). rewrite (Permutation_map (ident P) H2).
       rewrite map_ident_inc. apply Permutation_map. apply Permutation_app_comm.
     + destruct (Hf eq_refl) as [-> _]. reflexivity.
-  - inversion H; subst. cbn [dss_close clear_evaluators move_to_validation training validation app].
+  - rewrite dss_close_unfold in H. inversion H; subst. cbn [clear_evaluators move_to_validation training validation app].
     apply Permutation_map. apply Permutation_app_comm.
   - inversion H; subst. cbn [eval_step training validation]. rewrite !map_app, !map_ident_bump. reflexivity.
 Qed.
@@ -517,7 +647,7 @@ Lemma step_reshuffles : forall c o st ds st' ds' r,
   target_ok c (population P st) -> 2 <= population P st -> reshuffled st'.
 Proof.
   intros c o st ds st' ds' r H Hre Ht Hpop. destruct o as [run|run|gen|run|f g]; cbn [step reshuffles] in *; try discriminate.
-  - destruct (dss_init P c st ds) as [[s d]|] eqn:E; [|discriminate]. inversion H; subst.
+  - destruct (dss_init P c run st ds) as [[s d]|] eqn:E; [|discriminate]. inversion H; subst.
     apply dss_init_spec in E. destruct E as (sel & H1 & _ & _ & _ & H5). destruct (H5 Ht Hpop) as [Hs Hv].
     repeat split; auto.
     + rewrite H1. destruct sel; [contradiction|discriminate].
@@ -573,7 +703,7 @@ Proof.
   intros c o st ds st' ds' r H. destruct o as [run|run|gen|run|f g]; cbn [step reports] in *.
   - destruct (holdout_init P c run st ds) as [[s d]|] eqn:E; [|discriminate]. inversion H; subst.
     apply holdout_init_spec in E. destruct E as (_ & E1 & E2 & _). auto.
-  - destruct (dss_init P c st ds) as [[s d]|] eqn:E; [|discriminate]. inversion H; subst.
+  - destruct (dss_init P c run st ds) as [[s d]|] eqn:E; [|discriminate]. inversion H; subst.
     apply dss_init_spec in E. destruct E as (sel & _ & _ & E1 & E2 & _). auto.
   - destruct (dss_shake P c gen st ds) as [[[s d] b]|] eqn:E; [|discriminate]. inversion H; subst.
     apply dss_shake_spec in E. destruct E as (_ & Hr & Hf & Ht). subst b. split; [reflexivity|].
@@ -584,9 +714,11 @@ Proof.
   - inversion H; subst. cbn. auto.
 Qed.
 
-Lemma dss_close_spec : forall st,
-  training (dss_close P st) = [] /\ validation (dss_close P st) = validation st ++ training st.
-Proof. intros. split; reflexivity. Qed.
+Lemma dss_close_spec : forall c run st ds,
+  exists st', dss_close P c run st ds = Some (st', ds)
+    /\ training st' = [] /\ validation st' = validation st ++ training st
+    /\ clr_t st' = clr_t st + 1 /\ clr_v st' = clr_v st + 1.
+Proof. intros. rewrite dss_close_unfold. eexists. split; [reflexivity|]. repeat split. Qed.
 End ModelLemmas.
 
 (* --------------------------------------------------- target size, tuning *)
@@ -644,13 +776,13 @@ Proof.
         assert (Hs : length (skipn n bs) = (n * n_reshuffles c ops)%nat).
         { rewrite skipn_length. unfold n_reshuffles. lia. }
         destruct o as [run|run|gen|run|f g]; cbn [reshuffles] in Er; try discriminate.
-        + destruct (dss_init_progress P c st (firstn n bs) (bools (skipn n bs)) Ht Hpop Hf) as [st1 H1].
+        + destruct (dss_init_progress P c run st (firstn n bs) (bools (skipn n bs)) Ht Hpop Hf) as [st1 H1].
           exists st1, (skipn n bs), None. split; [|exact Hs]. cbn [step]. rewrite Hsplit, H1. reflexivity.
         + destruct (dss_shake_progress P c gen st (firstn n bs) (bools (skipn n bs)) Hg Er Ht Hpop Hf) as [st1 H1].
           exists st1, (skipn n bs), (Some true). split; [|exact Hs]. cbn [step]. rewrite Hsplit, H1. reflexivity.
       - fold (n_reshuffles c ops) in Hlen.
         destruct o as [run|run|gen|run|f g]; cbn [reshuffles is_dss_op] in *; try discriminate.
-        + exists st, bs, (Some false). split; [|exact Hlen]. cbn [step]. unfold dss_shake.
+        + exists st, bs, (Some false). split; [|exact Hlen]. cbn [step]. rewrite dss_shake_unfold.
           replace (gap c =? 0) with false by lia. rewrite Er. reflexivity.
         + eexists _, bs, None. split; [reflexivity|exact Hlen].
         + eexists _, bs, None. split; [reflexivity|exact Hlen]. }
@@ -717,11 +849,16 @@ Lemma shake_reports_and_clears_thm : forall (P : Type) c gen (st : state P) ds s
   /\ (r = false -> st' = st /\ ds' = ds).
 Proof.
   intros P c gen st ds st' ds' r H. destruct (dss_shake_spec P c gen st ds st' ds' r H) as (_ & Hr & Hf & Ht).
-  split; [exact Hr|]. split; [|exact Hf].
+  split; [rewrite <- (shake_due_unfold c gen); exact Hr|]. split; [|exact Hf].
   intros E. destruct (Ht E) as (sel & _ & _ & A & B & _). split; assumption.
 Qed.
 
-Lemma close_single_set_thm : forall (P : Type) (st : state P),
-  training (dss_close P st) = [] /\ validation (dss_close P st) = validation st ++ training st
-  /\ clr_t (dss_close P st) = clr_t st + 1 /\ clr_v (dss_close P st) = clr_v st + 1.
-Proof. intros. repeat split. Qed.
+Lemma close_single_set_thm : forall (P : Type) c run (st : state P) ds,
+  exists st', dss_close P c run st ds = Some (st', ds)
+    /\ training st' = [] /\ validation st' = validation st ++ training st
+    /\ clr_t st' = clr_t st + 1 /\ clr_v st' = clr_v st + 1.
+Proof. exact dss_close_spec. Qed.
+
+Lemma weight_documented : forall (P : Type) (e : example P),
+  weight P e = (diff e + age e * age e * age e) mod two64.
+Proof. intros. unfold weight. apply gen_weight_fact. Qed.
